@@ -418,6 +418,38 @@ class ADProbe:
     y = self.fn(x)
     return y
 
+  def coarse_fd(self, x, make_v, rng, h=0.5):
+    """Macroscopic slope: Richardson-extrapolated central difference at COARSE steps h, h/2 along a
+    fresh tangent, for points where the harness guarantees that x +- h*v stays inside one smooth
+    piece of the function (caller's responsibility).  The tiny-step difference quotient cannot see
+    a primal that was made piecewise constant at the 1e-7 level (a rounding / snapping / narrow
+    cast inside a differentiable routine): its a.e. derivative is zero and so is the quotient at
+    steps below the quantum.  The coarse quotient measures the slope the user means."""
+    ctx, M = self.ctx, self.ctx.M
+    if not ctx.f64:
+      return
+    x = ctx.arr(x)
+    v = ctx.arr(make_v(rng))
+    _, Jv = self.jvp(x, v)
+    Jvl = ctx.leaves(Jv)
+    names = ctx.names(Jv)
+
+    def fd(step):
+      yp = ctx.leaves(self._primal(ctx.axpy(x, step, v), v))
+      ym = ctx.leaves(self._primal(ctx.axpy(x, -step, v), v))
+      return [(np.asarray(p, np.float64) - np.asarray(q, np.float64)) / (2 * step) for p, q in zip(yp, ym)]
+    f1, f2 = fd(h), fd(h / 2)
+    worst, leaf = 0.0, None
+    for j, (p, a, b) in enumerate(zip(Jvl, f1, f2)):
+      rich = (4 * b - a) / 3
+      trunc = _norm(b - a)            # size of the h^2 term that Richardson removed
+      den = max(_norm(p), _norm(rich)) + 1e-3 * trunc / TOL_FD
+      r = _norm(np.asarray(p, np.float64) - rich) / den if den > 0 else 0.0
+      if r >= worst:
+        worst, leaf = r, names[j]
+    M.small('jvp_matches_coarse_richardson_difference', worst, 1.0, TOL_FD,
+            info=dict(self.info, h=h, leaf=leaf))
+
   def point(self, x, make_v, rng, kind='random', fd=True, nonlinear=True, linear_fn=False):
     """All oracles at one evaluation point.  make_v(rng) -> tangent pytree like x."""
     ctx, M, jax = self.ctx, self.ctx.M, self.ctx.jax
@@ -1250,6 +1282,9 @@ def _run_interp(case, M, ctx):
     if not _all_finite(ctx, y):
       raise core.Discard('primal interpolation left the documented extrapolation range')
     P.point({'fields': fields, 'ps': ps}, mk, rng, kind='inside')
+    # the tangent moves ps by at most amp*ps0 and `margin` keeps every target 3*amp away from the
+    # nodes, so x +- 0.5*v stays inside one linear piece: the coarse quotient is legitimate here
+    P.coarse_fd({'fields': fields, 'ps': ps}, mk, rng, h=0.5)
     M.cover('entry_point', name)
     M.sample({'kind': 'interp', 'fn': name, 'sigma_boundaries': sig.boundaries,
               'pressure_levels': pc.centers})
